@@ -365,6 +365,16 @@ fn gen_case(rng: &mut StdRng) -> Value {
         rules.push(json!([1, [0, 1, AUTHORIZER], rule_to_json(&Rule {
             head: Predicate { name: 1026, terms: vec![v(1)] }, body: vec![p0(v(1), v(1))], expressions: vec![], scopes: vec![] })]));
     }
+    if !rules.is_empty() && rng.gen_range(0..3) == 0 {
+        // the same rule carried by another block under the same trusted set: each copy stamps its own block on
+        // what it derives
+        for _ in 0..rng.gen_range(1..3) {
+            let mut r = rules[rng.gen_range(0..rules.len())].clone();
+            r[0] = json!(*pick(rng, &BLOCKS));
+            let at = rng.gen_range(0..=rules.len());
+            rules.insert(at, r);
+        }
+    }
     let nq = rng.gen_range(0..4);
     let queries: Vec<Value> = (0..nq)
         .map(|_| {
